@@ -19,6 +19,14 @@ use std::cell::Cell;
 // into this module so that C10 runs them with the hooks on whichever features are enabled
 #[path = "c11.rs"]
 mod matrix_histories;
+/// wave 4: C09's harness (every iterator constructor / API form) compiled into C10 so that the
+/// family `(10 10 . c09-case)` exists in C10's own case language (the inline module with a
+/// directory path makes `mod c09;` resolve to src/c09.rs WITH its submodules in src/c09/).
+#[path = "."]
+mod iter_forms {
+    pub mod c09;
+}
+mod records;
 
 // ------------------------------------------------------------------ stack / chain walks (10 9 term)
 
@@ -565,6 +573,9 @@ pub fn run(args: &[Sx]) -> Sx {
     let Some(op) = args.first().and_then(|x| x.i64()) else { return bad_case() };
     match (op, args.len()) {
         (8, _) => matrix_histories::run(&args[1..]),
+        (10, n) if n >= 2 => iter_forms::c09::run(&args[1..]),
+        (11, 8) => records::matrix(args),
+        (12, 4) => records::tensor(args),
         (9, 2) => view_walk(&args[1]),
         (7, 4) => {
             let (Some(shape), Some(data), Some(ops)) = (args[1].pairs_usize(), args[2].i64s(), args[3].list()) else { return bad_case() };
